@@ -360,6 +360,20 @@ def run(ctx):
                       (r"^Event::state_key\(ev\)$", "Some")])
     compare(ctx, w, f, paths, rule, scen, build_top, spec.top_level, "top")
 
+    # the key set a third-party invite's signature is checked against: "any public key in the m.room.third_party_invite event" is the top-level
+    # `public_key` AND every `public_keys[].public_key`, unconditionally
+    ctx.rule("C08.third-party-keys", "RoomThirdPartyInviteEvent::public_keys: every successful path returns the keys of BOTH `public_key` and `public_keys` (one does not "
+                                     "replace the other)")
+    cands = [g for g in w.all_fns() if g["path"].endswith("::public_keys") and "third_party_invite::RoomThirdPartyInviteEvent" in g["path"] and "body" in g]
+    if len(cands) != 1:
+        ctx.missing("C08.third-party-keys", "C08.third-party-keys:public_keys", "RoomThirdPartyInviteEvent::public_keys not found")
+    else:
+        fk = cands[0]
+        kp = [p for p in D.Dex(w.lookup, adt_discr=w.adt_discr, unroll=1, inline=helper_inline).paths(fk, [D.sym("self")]) if p.kind == "ret" and D.show(p.ret).startswith("Result::Ok(")]
+        partial = [D.show(p.ret)[:200] for p in kp if not (re.search(r"\.public_key\b", D.show(p.ret)) and re.search(r"\.public_keys\b", D.show(p.ret)))]
+        ctx.check(bool(kp) and not partial, "C08.third-party-keys", "C08.third-party-keys:public_keys", w.where(fk),
+                  bad_msg=f"a successful path returns only a part of the keys: {partial[:1]} - a signature made with the other key no longer matches, so a valid third-party "
+                          f"invite is rejected")
     from . import C08_levels
     C08_levels.run(ctx, w, spec, versions)
 
